@@ -57,6 +57,11 @@ CLAIMS = {
         note="Trusted: Coq kernel/vm_compute; the reading of TypeScript types (Spec/TsSem.v); the Python parser of real text (tools/tsparse.py); the corpus generator. The semantic theorems are about the AST: that the printed text denotes the AST is checked per generated case (norm_ok: textual merge = structural merge) — known class textual_merge where it is not. Variant- and container-level `as` are covered by the model/implementation text correspondence only.",
         technique="Coq proof (instantiation theorem; semantic lemmas about intersections/references under an executable denotation) + twin-definition oracle on real declarations + Coq-decided membership of real serde_json values in real (parsed) declarations",
         ref="DESIGN.md section 5 C14, section 10"),
+    "C15": dict(
+        text="Coq theorems for EVERY list of doc strings (any characters, any number of lines; Model/Docs.v = parse_docs + escape_doc after fix 44c978d): the rendered JSDoc block opens with `/**`, ends with `*/` + newline and contains the terminator `*/` exactly once, at its end — no documentation text can end its comment early (C15_contained, C15_block_shape, by induction over the strings with a boundary lemma for concatenation); no docs, no comment (C15_no_docs_no_comment); changing the documentation of a field changes its property's comment and nothing else, changing the documentation of a type changes neither its inline nor its flattened form (C15_field_docs_do_not_change_the_type, C15_type_docs_do_not_change_the_type). Tied to the code on every run: corpus definitions documented from an adversarial pool are compiled against /repo; every real export_to_string() must parse under the independent parser with comments kept, every comment block must stand immediately before `export` or a property name and contain the escaped doc text; every documented definition has a generated twin without documentation whose real declaration must equal the documented one after removing comments; model text vs real text byte for byte.",
+        note="Trusted: Coq kernel; transcription of parse_docs/escape_doc (pinned by the text correspondence); the Python lexer/parser. Docs of variants, tuple fields and flattened fields are dropped by ts-rs (allowed by the property). Known class: docs containing the object-merge pattern ` } & { ` are rewritten by the textual merge (known_findings.json). That block docs survive merging of several types into one file is C05's known class doc_blank_line.",
+        technique="Coq proof (induction over doc strings: exactly one terminator; independence of the type from docs) + independent parse of real exported text with comment attachment check + documentation-free twin definitions",
+        ref="DESIGN.md section 5 C15, section 10"),
     "C17": dict(
         text="Coq state machine (Model/ExportSM.v) with Ok/Err/Panic outcomes: theorems that a failing export_to changes neither the registry nor any file, that paths above the root and non-exportable roots are errors (with C08_absolute_above_root). Tied to the code on every run: histories with one obstacle (target is a directory, parent component is a regular file, above-root path, non-exportable root, export_all failing half-way) before each step, removal and retry, on a real directory under catch_unwind: no panic, and the tree after retry equals the fault-free tree; model and implementation compared byte for byte.",
         note="Trusted: Coq kernel/vm_compute; file system model (errors exactly where the property lists obstacles). Partial: I/O faults below File::create (short writes, sync_all) cannot be injected offline; the model has the insert-after-success branch, the implementation side of it is not exercised.",
